@@ -107,6 +107,24 @@ def scan(tree, what, allow=()):
                 out.append(('C18-no-cache', qual, f'{what}: {qual} has a mutable default argument '
                                                   f'({ast.unparse(dflt)}): it is shared by all calls'))
         for n in own_nodes(fn):
+            # the namespace of an object that exists independently of this call (a module found in
+            # sys.modules, a class, a context) is not rewritten through vars() / __dict__ / globals()
+            if isinstance(n, ast.Call) and isinstance(n.func, ast.Attribute) \
+                    and n.func.attr in ('update', 'clear', 'pop', 'popitem', 'setdefault', '__setitem__', '__delitem__'):
+                recv = n.func.value
+                ns = (isinstance(recv, ast.Call) and isinstance(recv.func, ast.Name) and recv.func.id in ('vars', 'globals')) \
+                    or (isinstance(recv, ast.Attribute) and recv.attr == '__dict__')
+                if ns and (qual, 'namespace') not in allow:
+                    out.append(('C18-no-shared-store', qual,
+                                f'{what}: {qual} rewrites a namespace in place (`{ast.unparse(n)[:70]}`): whoever '
+                                f'holds the object (an earlier module of that name, its sub-grammars) sees the change'))
+            if isinstance(n, ast.Subscript) and isinstance(n.ctx, (ast.Store, ast.Del)):
+                recv = n.value
+                ns = (isinstance(recv, ast.Call) and isinstance(recv.func, ast.Name) and recv.func.id in ('vars', 'globals')) \
+                    or (isinstance(recv, ast.Attribute) and recv.attr == '__dict__')
+                if ns and (qual, 'namespace') not in allow:
+                    out.append(('C18-no-shared-store', qual,
+                                f'{what}: {qual} stores into a namespace (`{ast.unparse(n)[:70]}`)'))
             if isinstance(n, (ast.Global, ast.Nonlocal)) and isinstance(n, ast.Global):
                 stored = {x.id for x in own_nodes(fn) if isinstance(x, ast.Name)
                           and isinstance(x.ctx, (ast.Store, ast.Del))} & set(n.names)
